@@ -198,6 +198,12 @@ struct V {
     /// inside the condition of a branch that has a consequence (open finding: the `=>` forward
     /// narrowing trusts the provenance of a mid-chain match)
     in_cond: std::cell::Cell<bool>,
+    /// inside a condition with several matches (open finding: a nil test on a `T | []` value that
+    /// another match follows makes the block's type lose nil)
+    multi_match_cond: std::cell::Cell<bool>,
+    /// inside the condition of a branch that is not the last one of its block (open finding:
+    /// complement narrowing after a tuple pattern with several type-constraining sub-patterns)
+    non_last_cond: std::cell::Cell<bool>,
 }
 
 impl V {
@@ -330,6 +336,12 @@ impl V {
         if maybe_nil && accepts_nil(pat) && !matches!(pat, Pat::Tup(None, fs) if fs.is_empty()) {
             return Err("nil-accepting pattern on a value that may be nil (F25)".into());
         }
+        if self.non_last_cond.get() && ty.has_union() && constraining_subpatterns(pat) >= 2 {
+            return Err("tuple pattern with several type-constraining sub-patterns on a union-typed value in a non-last branch (open finding: complement narrowing)".into());
+        }
+        if maybe_nil && accepts_nil(pat) && self.multi_match_cond.get() {
+            return Err("nil test on a value that may be nil inside a condition with several matches (open finding)".into());
+        }
         let mut bound = vec![];
         pat.vars(&mut bound);
         if let Some(b) = pat_binds(pat, ty) {
@@ -438,9 +450,6 @@ impl V {
             }
             // open finding "mid-chain match narrows the rest of the chain": a refutable match whose
             // scrutinee may carry provenance (variable, parameter, `~`) ends its chain
-            if self.in_cond.get() && i > 0 && matches!(terms[i - 1], Term::Match(_)) && last_match_narrows {
-                return Err("in a condition with consequence a refutable match on a variable / parameter is followed by more terms (open finding: `=>` forward narrowing)".into());
-            }
             let is_last = i + 1 == terms.len();
             self.flow.set((after_match, prov));
             let before = cur.clone();
@@ -451,9 +460,6 @@ impl V {
                     // than a nil-able scrutinee) and the scrutinee is traceable to a name
                     let refutable = !(pat_binds(p, &before).is_some() && pat_irrefutable(p, &before));
                     last_match_narrows = refutable && prov && !after_match;
-                    if last_match_narrows && self.in_field.get() > 0 {
-                        return Err("a refutable match on a variable / parameter inside a tuple field (open finding: F35 residual, narrowing survives the field)".into());
-                    }
                     after_match = true
                 }
                 _ => {
@@ -517,17 +523,25 @@ impl V {
                 inner.kill_pending();
                 let depth = self.in_field.replace(0);
                 let ic = self.in_cond.replace(false);
+                let mm = self.multi_match_cond.replace(false);
+                let nl = self.non_last_cond.replace(false);
                 let r = self.branches(&inner, tin, e, tail, cx);
                 self.in_field.set(depth);
                 self.in_cond.set(ic);
+                self.multi_match_cond.set(mm);
+                self.non_last_cond.set(nl);
                 r
             }
             Term::Fn { param, body } => {
                 let depth = self.in_field.replace(0);
                 let ic = self.in_cond.replace(false);
+                let mm = self.multi_match_cond.replace(false);
+                let nl = self.non_last_cond.replace(false);
                 let r = self.function(env, param, body);
                 self.in_field.set(depth);
                 self.in_cond.set(ic);
+                self.multi_match_cond.set(mm);
+                self.non_last_cond.set(nl);
                 let (ty, rec) = r?;
                 if rec {
                     return Err("count-down function not bound to a name".into());
@@ -642,9 +656,6 @@ impl V {
                 if ty.is_never() {
                     return Err("binding a tail call".into());
                 }
-                if self.in_cond.get() && self.last_narrows.get() {
-                    return Err("in a condition with consequence a refutable match on a variable / parameter is followed by the binding pattern (open finding: `=>` forward narrowing)".into());
-                }
                 env.kill_pending();
                 let (vty, refutable) = self.check_pat(env, p, &ty, true, fs_out.1 && !fs_out.0)?;
                 Ok((vty, if refutable { env.pending() } else { vec![] }, (true, fs_out.1)))
@@ -709,8 +720,12 @@ impl V {
             let mut benv = Env { vars: env.vars.clone(), depth: env.depth + 1 };
             benv.kill_pending();
             let ic = self.in_cond.replace(b.cons.is_some());
+            let mm = self.multi_match_cond.replace(cond_match_count(&b.cond) >= 2);
+            let nl = self.non_last_cond.replace(!is_last);
             let r = self.seq(&mut benv, tin, &b.cond, tail && b.cons.is_none() && is_last, c);
             self.in_cond.set(ic);
+            self.multi_match_cond.set(mm);
+            self.non_last_cond.set(nl);
             let (cty, pending) = r?;
             if cty.is_nil() {
                 if b.cons.is_some() {
@@ -779,6 +794,23 @@ impl V {
         let r = if r.is_never() { Ty::nil() } else { r };
         // a guard-shaped function is treated as a count-down function (small arguments only)
         Ok((Ty::Fn(Box::new(param.clone()), Box::new(r)), guard_shaped))
+    }
+}
+
+/// sub-patterns (below the top) that constrain the TYPE of their position
+fn constraining_subpatterns(p: &Pat) -> usize {
+    fn one(q: &Pat) -> usize {
+        match q {
+            Pat::Bind(_) | Pat::Wild | Pat::Lit(_) | Pat::Str(_) | Pat::Pin(_) => 0,
+            Pat::Tup(_, fs) => 1 + fs.iter().map(|(_, r)| one(r)).sum::<usize>(),
+            Pat::Part(_, fs) => 1 + fs.iter().map(|(_, r)| r.as_ref().map(one).unwrap_or(0)).sum::<usize>(),
+            Pat::Star(_) | Pat::Type(_) | Pat::As(..) | Pat::Alt(_) => 1,
+        }
+    }
+    match p {
+        Pat::Tup(_, fs) => fs.iter().map(|(_, r)| one(r)).sum(),
+        Pat::Part(_, fs) => fs.iter().map(|(_, r)| r.as_ref().map(one).unwrap_or(0)).sum(),
+        _ => 0,
     }
 }
 
@@ -859,7 +891,7 @@ pub fn validate(p: &Program) -> R<()> {
     if p.prints_ambiguously() {
         return Err("prints ambiguously".into());
     }
-    let v = V { flow: std::cell::Cell::new((false, true)), last_narrows: std::cell::Cell::new(false), in_field: std::cell::Cell::new(0), in_cond: std::cell::Cell::new(false) };
+    let v = V { flow: std::cell::Cell::new((false, true)), last_narrows: std::cell::Cell::new(false), in_field: std::cell::Cell::new(0), in_cond: std::cell::Cell::new(false), multi_match_cond: std::cell::Cell::new(false), non_last_cond: std::cell::Cell::new(false) };
     let cx = Cx { param: None, rec: false };
     let mut env = Env::default();
     let n = p.steps.len();
